@@ -15,7 +15,14 @@
 //   Integrate_Gauss_Legendre, Find_Epsilon + Integrate), nested by the harness itself level by level with the same
 //   method_parameter at every level, on the same user function.  (Not recomputed, i.e. the value is repeated, for "Trapezoidal" in two
 //   and three dimensions and "Tanh-Sinh" in three: these two ignore the parameter and cost 1e5..1e6 evaluations per call there.)
-// neval/digest/min/max describe the arguments with which the user's function was called by the library.
+// neval/digest/min/max describe the arguments with which the user's function was called by the library.  The azimuth of a vector is
+//   recorded as the representative of atan2(vy,vx) modulo 2 pi that lies within pi of the middle of the azimuth limits of the call, so
+//   that ranges anywhere on the real line (negative, beyond 2 pi) can be compared with their limits.
+//   session <k> <call> ;; <call> ;; ... (k calls, each one of the four lines above)
+//       -> for every call: its output as above, then the value of the same call made in a process that has made no other call, then '|'
+//   A session is a call history: it runs in a process of its own that is started afresh from the harness' executable (so that what a
+//   replay of the line sees is what the run saw), the reference values come from children forked from that process before it has
+//   called the library, then the k calls are made one after the other in that process.
 #include "common.hpp"
 #include "libphysica/Integration.hpp"
 #include "libphysica/Linear_Algebra.hpp"
@@ -23,6 +30,8 @@
 #include <boost/math/quadrature/gauss_kronrod.hpp>
 #include <boost/math/quadrature/tanh_sinh.hpp>
 #include <boost/math/quadrature/trapezoidal.hpp>
+#include <sys/wait.h>
+#include <unistd.h>
 using namespace libphysica;
 
 struct Rec
@@ -133,9 +142,8 @@ static double direct_nd(const std::string& method, const std::function<double(co
 static bool costly3(const std::string& method) { return method == "Trapezoidal" || method == "Tanh-Sinh"; }
 static bool costly2(const std::string& method) { return method == "Trapezoidal"; }
 
-static void handler(vh::Reader& r, vh::Out& o)
+static void do_call(const std::string& op, vh::Reader& r, vh::Out& o)
 {
-	std::string op	   = r.word();
 	std::string method = r.word();
 	int p			   = (int) r.integer();
 	Rec rec;
@@ -200,14 +208,14 @@ static void handler(vh::Reader& r, vh::Out& o)
 	{
 		double lim[6] = {r.num(), r.num(), r.num(), r.num(), r.num(), r.num()};
 		u.parse(r);
+		const double azmid				= 0.5 * (lim[4] + lim[5]);
 		std::function<double(Vector)> f = [&](Vector w) {
 			double x = w[0], y = w[1], z = w[2];
 			rec.n++;
 			rec.digest += x + 2.0 * y + 3.0 * z;
 			double nrm = std::sqrt(x * x + y * y + z * z);
-			double az  = std::atan2(y, x);
-			if(az < 0.0)
-				az += 2.0 * M_PI;
+			double dz  = std::atan2(y, x) - azmid;
+			double az  = azmid + (dz - 2.0 * M_PI * std::round(dz / (2.0 * M_PI)));
 			rec.see(0, nrm);
 			rec.see(1, z / nrm);
 			if(x != 0.0 || y != 0.0)
@@ -228,4 +236,154 @@ static void handler(vh::Reader& r, vh::Out& o)
 	else
 		o.w("HARNESSERR unknown_op");
 }
-int main(int argc, char** argv) { return vh::run(argc, argv, handler, 60); }
+
+// ---------- sessions (call histories) ----------
+static bool is_op(const std::string& w) { return w == "named1d" || w == "nested2d" || w == "nested3d" || w == "spherical"; }
+
+// the output of one call made by a child forked from this process (which has not called the library yet)
+static std::string in_forked_child(const vh::Reader& r0, size_t start)
+{
+	int pfd[2];
+	if(pipe(pfd) != 0)
+		return "NOFORK";
+	fflush(stdout);
+	fflush(stderr);
+	pid_t pid = fork();
+	if(pid < 0)
+		return "NOFORK";
+	if(pid == 0)
+	{
+		close(pfd[0]);
+		vh::Reader r = r0;
+		r.i			 = start;
+		vh::Out o;
+		std::string op = r.word();
+		do_call(op, r, o);
+		std::string t = o.s.str();
+		size_t off	  = 0;
+		while(off < t.size())
+		{
+			ssize_t k = write(pfd[1], t.c_str() + off, t.size() - off);
+			if(k <= 0)
+				break;
+			off += k;
+		}
+		_exit(0);
+	}
+	close(pfd[1]);
+	std::string ans;
+	char b[4096];
+	ssize_t k;
+	while((k = read(pfd[0], b, sizeof b)) > 0)
+		ans.append(b, k);
+	close(pfd[0]);
+	int st = 0;
+	waitpid(pid, &st, 0);
+	if(ans.empty())
+		return "DIED";
+	return ans.substr(0, ans.find(' '));
+}
+
+// the body of a session, in the process started for it
+static int session_main(const std::string& line)
+{
+	vh::Reader r(line);
+	r.word();
+	long k = r.integer();
+	std::vector<size_t> starts;
+	for(size_t j = r.i; j < r.t.size() && r.t[j] != "#"; j++)
+		if(is_op(r.t[j]) && (j == r.i || r.t[j - 1] == ";;"))
+			starts.push_back(j);
+	vh::Out o;
+	if((long) starts.size() != k)
+	{
+		if(write(3, "HARNESSERR session_shape\n", 25) != 25) {}
+		return 0;
+	}
+	std::vector<std::string> fresh;
+	for(size_t s : starts)
+		fresh.push_back(in_forked_child(r, s));
+	for(size_t c = 0; c < starts.size(); c++)
+	{
+		r.i			   = starts[c];
+		std::string op = r.word();
+		do_call(op, r, o);
+		o.w(fresh[c]);
+		o.w("|");
+	}
+	std::string t = o.s.str() + "\n";
+	size_t off	  = 0;
+	while(off < t.size())
+	{
+		ssize_t w = write(3, t.c_str() + off, t.size() - off);
+		if(w <= 0)
+			break;
+		off += w;
+	}
+	return 0;
+}
+
+static std::string g_self;
+static void handler(vh::Reader& r, vh::Out& o)
+{
+	std::string op = r.word();
+	if(op != "session")
+	{
+		do_call(op, r, o);
+		return;
+	}
+	std::string line;
+	for(size_t k = 0; k < r.t.size(); k++)
+		line += (k ? " " : "") + r.t[k];
+	int pfd[2];
+	if(pipe(pfd) != 0)
+	{
+		o.w("HARNESSERR no_pipe");
+		return;
+	}
+	fflush(stdout);
+	fflush(stderr);
+	pid_t pid = fork();
+	if(pid == 0)
+	{
+		close(pfd[0]);
+		if(pfd[1] != 3)
+		{
+			dup2(pfd[1], 3);	 // the answer; what the library prints goes to the runner's file of diagnostics (stdout, stderr)
+			close(pfd[1]);
+		}
+		alarm(55);
+		execl(g_self.c_str(), g_self.c_str(), "--session", line.c_str(), (char*) nullptr);
+		_exit(77);
+	}
+	close(pfd[1]);
+	std::string ans;
+	char b[4096];
+	ssize_t k;
+	while((k = read(pfd[0], b, sizeof b)) > 0)
+		ans.append(b, k);
+	close(pfd[0]);
+	int st = 0;
+	waitpid(pid, &st, 0);
+	if(WIFSIGNALED(st))
+	{
+		// the session ended the way a worker would have: end this worker the same way, so that the runner records it
+		signal(WTERMSIG(st), SIG_DFL);
+		raise(WTERMSIG(st));
+		_exit(1);
+	}
+	if(!WIFEXITED(st) || WEXITSTATUS(st) != 0)
+		_exit(WIFEXITED(st) ? WEXITSTATUS(st) : 1);
+	while(!ans.empty() && (ans.back() == '\n' || ans.back() == ' '))
+		ans.pop_back();
+	o.w(ans);
+}
+int main(int argc, char** argv)
+{
+	if(argc >= 3 && std::string(argv[1]) == "--session")
+		return session_main(argv[2]);
+	char self[4096];
+	ssize_t n = readlink("/proc/self/exe", self, sizeof self - 1);
+	g_self	  = n > 0 ? std::string(self, n) : std::string(argv[0]);
+	return vh::run(argc, argv, handler, 60);
+}
